@@ -407,6 +407,18 @@ AnnotationsDelimited(inp, out) ==
      THEN ~\E k \in b..e : Nl(ByteAt(inp, k))
      ELSE TRUE
 
+\* a text lexeme that begins with "(" is a parenthesised description: it is what its parentheses enclose - it ends
+\* with a ")" that is the first thing on its line, and at the FIRST such ")"
+LineFirst(inp, from, k) == \E j \in from..(k - 1) : Nl(ByteAt(inp, j)) /\ \A m \in (j + 1)..(k - 1) : Ws(ByteAt(inp, m))
+DescriptionsDelimited(inp, out) ==
+  \A i \in 1..Len(out) : (out[i][1] = 5 /\ out[i][2] <= out[i][3]) =>
+     LET b == out[i][2]  e == out[i][3]
+         nb == {k \in b..e : ~Ws(ByteAt(inp, k)) /\ ~Nl(ByteAt(inp, k))}
+         f == IF nb = {} THEN -1 ELSE CHOOSE k \in nb : \A m \in nb : k <= m
+     IN (f >= 0 /\ ByteAt(inp, f) = 40) =>
+          /\ ByteAt(inp, e) = 41 /\ LineFirst(inp, f, e)
+          /\ ~\E k \in (f + 1)..(e - 1) : ByteAt(inp, k) = 41 /\ LineFirst(inp, f, k)
+
 \* every byte outside all lexemes is whitespace, a line end, comment text or an annotation delimiter.
 \* Gap grammar (a small recogniser over the bytes between two lexemes): blanks and line ends; "#" up
 \* to the end of line; "###" ... "###"; "//" directly before an annotation lexeme; "/*" before and "*/"
